@@ -189,7 +189,7 @@ theorem validation_before_interpreter :
     ∧ Gen.GenerateOrder.interpreterInitStaticPass = ["find_tables_to_keep_history_for"] := by decide
 
 theorem merge_options_pinned :
-    Gen.GenerateOrder.mergeOptionsTests = ["user_options.get(name)", "option.get('default')"]
+    Gen.GenerateOrder.mergeOptionsTests = ["name in user_options", "'default' in option"]
     ∧ Gen.GenerateOrder.mergeOptionsRaises = ["DataGenNameError"] := by decide
 
 /-- the body of `get_referent_name` that `checkRef` mirrors (`ret` unassigned when both are empty,
